@@ -44,6 +44,9 @@ func Scalarise(pkgs []*packages.Package, module string) *Result {
 				if !ok || fd.Body == nil {
 					continue
 				}
+				if Unchanged(strings.TrimPrefix(strings.TrimPrefix(p.PkgPath, module), "/"), fd) {
+					continue // as on the reference tree: left as written
+				}
 				pl.curFile, pl.curFunc = f, FuncKey(fd)
 				if n := (&sroa{pl: pl, fn: fd}).run(); n > 0 {
 					pl.changed[f] = true
